@@ -296,3 +296,134 @@ Proof.
   - split; [discriminate|apply lims_le_refl; assumption].
   - apply equal_step_good; auto. intros w0 p0 q0 H0 Hp0 Hq0. apply IH; assumption.
 Qed.
+
+(* ------------------------------------------------------------------ fuel *)
+(* Equal burns one unit of fuel per level, also on a pair of null pointers, so a pair whose
+   smaller depth budget is d needs d + 3 (list -> element -> null pair at d = 0); a pair of
+   structs that cannot be descended through (d = 0) needs 2; any pair needs 1. *)
+Definition efuel_ok (p q : Ptr) (fuel : nat) : Prop :=
+  (1 <= fuel)%nat /\
+  (p_valid p = true -> p_valid q = true ->
+   0 <= p_depth p /\ 0 <= p_depth q /\
+   (Z.min (p_depth p) (p_depth q) + 3 <= Z.of_nat fuel \/
+    (p_kind p = KStruct /\ p_kind q = KStruct /\ Z.min (p_depth p) (p_depth q) = 0 /\ (2 <= fuel)%nat))).
+
+Definition rec_nf (f : nat) (rec : erec) : Prop :=
+  forall w p q, efuel_ok p q f -> fst (rec w p q) <> EFuel.
+
+Lemma ptr_loop_nofuel c x rec p q f : rec_nf f rec ->
+  p_valid p = true -> p_valid q = true -> 0 <= p_depth p -> 0 <= p_depth q ->
+  (Z.min (p_depth p) (p_depth q) + 2 <= Z.of_nat f \/ (Z.min (p_depth p) (p_depth q) = 0 /\ (1 <= f)%nat)) ->
+  forall k i w, fst (ptr_loop c x rec p q k i w) <> EFuel.
+Proof.
+  intros Hrec Vp Vq Dp Dq Hf. induction k as [|k IH]; intros i w; [discriminate|].
+  rewrite ptr_loop_S.
+  destruct (struct_ptr c (segs_of x SA) (rl_of x w SA) p i) as [r1 rl1] eqn:E1. cbv zeta.
+  destruct r1 as [sp1| |]; try discriminate.
+  destruct (struct_ptr c (segs_of x SB) _ q i) as [r2 rl2] eqn:E2.
+  destruct r2 as [sp2| |]; try discriminate.
+  assert (efuel_ok sp1 sp2 f) as Hc.
+  { split; [lia|]. intros V1 V2.
+    pose proof (struct_ptr_depth c (segs_of x SA) (rl_of x w SA) p i sp1 Dp) as H1. rewrite E1 in H1. specialize (H1 eq_refl V1).
+    pose proof (struct_ptr_depth c (segs_of x SB) (rl_of x (put_rl x w SA rl1) SB) q i sp2 Dq) as H2. rewrite E2 in H2. specialize (H2 eq_refl V2).
+    split; [lia|]. split; [lia|]. left. lia. }
+  specialize (Hrec (put_rl x (put_rl x w SA rl1) SB rl2) sp1 sp2 Hc).
+  destruct (rec _ sp1 sp2) as [o w3]. cbn [fst] in Hrec.
+  destruct o as [[|]| | |]; try discriminate; [apply IH|congruence].
+Qed.
+
+Lemma elem_loop_nofuel rec p q f : rec_nf f rec ->
+  p_valid p = true -> p_valid q = true -> 0 <= p_depth p -> 0 <= p_depth q ->
+  Z.min (p_depth p) (p_depth q) + 2 <= Z.of_nat f ->
+  forall k i w, fst (elem_loop true rec p q k i w) <> EFuel.
+Proof.
+  intros Hrec Vp Vq Dp Dq Hf. induction k as [|k IH]; intros i w; [discriminate|].
+  rewrite elem_loop_S.
+  destruct (list_struct true p i) as [e1| |] eqn:E1; try discriminate.
+  destruct (list_struct true q i) as [e2| |] eqn:E2; try discriminate.
+  assert (efuel_ok e1 e2 f) as Hc.
+  { split; [lia|]. intros V1 V2.
+    destruct (list_struct_depth' p i e1 Dp E1 V1) as (K1 & N1 & H1).
+    destruct (list_struct_depth' q i e2 Dq E2 V2) as (K2 & N2 & H2).
+    split; [lia|]. split; [lia|].
+    destruct (Z.eq_dec (Z.min (p_depth p) (p_depth q)) 0) as [Z0|NZ].
+    - right. repeat split; auto; lia.
+    - left. lia. }
+  specialize (Hrec w e1 e2 Hc). destruct (rec w e1 e2) as [o w']. cbn [fst] in Hrec.
+  destruct o as [[|]| | |]; try discriminate; [apply IH|congruence].
+Qed.
+
+Lemma equal_step_nofuel c fx x rec w p q f : fx_depth (fx_rd fx) = true -> rec_nf f rec ->
+  efuel_ok p q (S f) -> fst (equal_step c fx x rec w p q) <> EFuel.
+Proof.
+  intros Hfd Hrec [_ Hf]. unfold equal_step.
+  destruct (p_valid p) eqn:Vp; destruct (p_valid q) eqn:Vq; cbn [negb andb orb]; try discriminate.
+  destruct (Hf eq_refl eq_refl) as (Dp & Dq & Hd). clear Hf.
+  destruct (p_kind p) eqn:Kp; destruct (p_kind q) eqn:Kq; try discriminate.
+  - (* struct *)
+    unfold equal_struct. cbv zeta.
+    destruct (slice _ _ _); try discriminate. destruct (slice _ _ _); try discriminate.
+    destruct (negb _); [discriminate|].
+    pose proof (ptr_loop_nofuel c x rec p q f Hrec Vp Vq Dp Dq
+                  ltac:(destruct Hd as [H|(_ & _ & H0 & H2)]; [left; lia|right; split; [assumption|lia]])
+                  (Z.to_nat (Z.min (PointerCount (p_size p)) (PointerCount (p_size q)))) 0 w) as G.
+    destruct (ptr_loop _ _ _ _ _ _ _ _) as [o w']. cbn [fst] in G.
+    destruct o as [[|]| | |]; try discriminate; [|congruence].
+    destruct (no_ptrs _ _ _ p _ _) as [[|]| |]; try discriminate.
+    destruct (no_ptrs _ _ _ q _ _); discriminate.
+  - (* list *)
+    destruct Hd as [Hd|(K & _)]; [|discriminate K].
+    unfold equal_list. cbv zeta. destruct (negb (list_len p =? list_len q)); [discriminate|].
+    match goal with |- fst (match ?bc with Some r => r | None => ?rest end) <> EFuel =>
+      assert (match bc with Some r => fst r <> EFuel | None => True end) as Hb;
+      [|destruct bc as [r'|]; [exact Hb|]] end.
+    { destruct (fx_bitlist fx); [|exact I]. destruct (negb _); [discriminate|].
+      destruct (p_bit p); [|exact I]. destruct (slice _ _ _); try discriminate.
+      destruct (slice _ _ _); discriminate. }
+    destruct (_ && _ && _); [discriminate|].
+    destruct (_ && _ && _).
+    + destruct (slice _ _ _); try discriminate. destruct (slice _ _ _); discriminate.
+    + rewrite Hfd. apply (elem_loop_nofuel rec p q f); auto. lia.
+Qed.
+
+(* equal_m_safe, part 2: fuel exhaustion is excluded by the depth budgets *)
+Theorem equal_m_nofuel c fx x : fx_depth (fx_rd fx) = true ->
+  forall fuel w p q, efuel_ok p q fuel -> fst (equal_m fuel c fx x w p q) <> EFuel.
+Proof.
+  intros Hfd. induction fuel as [|f IH]; intros w p q Hf; cbn [equal_m].
+  - destruct Hf as [Hf _]. lia.
+  - apply (equal_step_nofuel c fx x _ w p q f); auto.
+Qed.
+
+(* ------------------------------------------------------------------ equal_m_safe *)
+(* For two pointers obtained by any read path under depth limit D (their depth budgets are
+   at most D - 1, see C02_depth_bound): fuel D + 2 is never exhausted; D + 1 suffices when
+   both are structs and D = 1.  The traversal budgets of both messages only go down and stay
+   non-negative, so what Equal consumes from each message is at most what was left of T. *)
+Theorem equal_m_safe c fx x fuel w p q D :
+  ectx_ok x -> cfg_strict c = true -> fx_depth (fx_rd fx) = true ->
+  wf_ptr (segs_of x SA) p -> wf_ptr (segs_of x SB) q -> lims_nonneg w ->
+  0 <= p_depth p <= D - 1 -> 0 <= p_depth q <= D - 1 -> D + 2 <= Z.of_nat fuel ->
+  let r := equal_m fuel c fx x w p q in
+  fst r <> EPanic /\ fst r <> EFuel /\ lims_le (snd r) w.
+Proof.
+  intros Hx Hc Hfd Hp Hq Hw Dp Dq Hf r.
+  destruct (equal_m_good c fx x Hx Hc fuel w p q Hp Hq Hw) as [G1 G2].
+  split; [exact G1|]. split; [|exact G2].
+  apply equal_m_nofuel; auto. split; [lia|]. intros _ _. split; [lia|]. split; [lia|]. left. lia.
+Qed.
+
+(* the bound D + 2 is tight for this model: D = 2, a struct whose field is a composite list
+   of one element with a null pointer; fuel D + 1 = 3 reports exhaustion, D + 2 = 4 does not *)
+Definition eq_deep_msg : segs :=
+  [[0;0;0;0;0;0;1;0;  1;0;0;0;15;0;0;0;  4;0;0;0;0;0;1;0;  0;0;0;0;0;0;0;0]].
+Example equal_fuel_tight :
+  let c := mkCfg 0 2 true true in
+  let fx := mkEFix true true (mkFix true true true) in
+  msg_ok eq_deep_msg /\
+  fst (fst (run_equal 3 c c fx eq_deep_msg [] eq_deep_msg [] true SelRoot SelRoot)) = EFuel /\
+  fst (fst (run_equal 4 c c fx eq_deep_msg [] eq_deep_msg [] true SelRoot SelRoot)) = EOk true.
+Proof.
+  split; [repeat constructor; cbn; try lia; unfold maxSegmentSize; lia|].
+  vm_compute. split; reflexivity.
+Qed.
